@@ -48,6 +48,16 @@ def cases():
         cs.append(('tm.estf %s %s' % (v, F['one']), 'estimate-float-' + k))
     for k, v in LD.items():
         cs.append(('tm.estld %s %s' % (v, LD['one']), 'estimate-longdouble-' + k))
+    # literals written at the call site (index of the literal for the harness, its bit pattern for the model)
+    KD = ['qnan', '+inf', '-inf', '+0', '-0', 'one', '-one', 'max', '-max', 'denormal', 'neg-qnan']
+    for k, name in enumerate(KD):
+        if name in ('-0', 'neg-qnan'): continue   # a negated zero / NaN literal is the caller's own arithmetic: under -fno-signed-zeros its sign is not defined
+        cs.append(('tm.kd %d %s' % (k, D[name]), 'literal-double-' + name))
+        cs.append(('tm.kf %d %s' % (k, F[name]), 'literal-float-' + name))
+        cs.append(('tm.kld %d %s' % (k, LD[name]), 'literal-longdouble-' + name))
+        cs.append(('tm.kest %d %s %s' % (k, D[name], D['one']), 'literal-estimate-' + name))
+        cs.append(('tm.kestf %d %s %s' % (k, F[name], F['one']), 'literal-estimate-float-' + name))
+        cs.append(('tm.kcx %d %s %s' % (k, D[name], D['one']), 'literal-complex-' + name))
     # two special values at once
     for a, b in itertools.product(['qnan', '+inf', '-0', 'max'], repeat=2):
         cs.append(('tm.cx %s %s' % (D[a], D[b]), 'complex-pair'))
